@@ -112,6 +112,11 @@ pub fn cross_namespace_states(tier: &str) -> Vec<State> {
         let chain: Vec<Link> = l.iter().map(|b| Link { in_b: *b, before_base: false, content: "plain" }).collect();
         out.push(State { label: label(&chain, false, false), depth: chain.len() as u32 - 1, set: build(&chain, false, false) });
     }
+    // extensions that add only attributes / nothing / a choice in the middle, in one namespace
+    for c1 in ["attributes", "empty", "sequence+choice"] {
+        let chain = vec![Link { in_b: false, before_base: false, content: "plain" }, Link { in_b: false, before_base: false, content: c1 }];
+        out.push(State { label: label(&chain, false, false), depth: 1, set: build(&chain, false, false) });
+    }
     out
 }
 
